@@ -976,6 +976,7 @@ package lang
 //@   ensures[C08] stack-restored: stackKept(e, old(e.stackTop), result)
 //@   ensures[C11] fault-latched: $faulted <==> isFault(result)
 //@   assert?[C02] array-element-is-bound-with-its-index: old(e.root.Value.Tag) == ValueArray && e.ruleRoot == item && e.ruleRoot == old(e.root.Value.Array)[i] && has(e.stackTop.locals, "$index") && e.stackTop.locals["$index"].Value.Tag == ValueNum && same(*e.stackTop.locals["$index"].Value.Num, numOf(i)) && arg1 == patternRules @ Evaluator.evalRules
+//@   ensures[C02,C11] the-index-variable-is-unknown-again-after-an-array-root: old(e.root) != nil && old(e.root.Value.Tag) == ValueArray ==> !has(e.stackTop.locals, "$index")
 //@   assert[C02] whole-root-otherwise: old(e.root.Value.Tag) != ValueArray ==> e.ruleRoot == e.root && arg1 == patternRules @ Evaluator.evalRules
 //@   loop 0 invariant protocol: e != nil && e.lexer != nil && frameOK(e.stackTop) && e.stackTop == old(e.stackTop) && !$faulted && e.root == old(e.root) && e.evalDepth == old(e.evalDepth)
 
